@@ -1,8 +1,8 @@
 SPECIFICATION Spec
 CONSTANTS
-  Variants = {1, 4}
-  Paths = {1, 4}
-  Names = {1}
+  Variants = {1, 5}
+  Paths = {1, 5}
+  Names = {}
   Slots = {1, 2}
   LoadFaults = {"none"}
   UnloadFaults = {"none"}
@@ -10,7 +10,7 @@ CONSTANTS
   SymFaults = {"none"}
   Levels = {0}
   Indents = {0}
-  Cap = 2
+  Cap = 1
   AsBuilt = FALSE
   Bounded = TRUE
   TrackMain = FALSE
